@@ -23,7 +23,11 @@ AUTO = [(48000, 2, 2049, 20000, 1, 9, 1, 10, 0, 0, 0, 1, 48000, 2), (48000, 1, 2
 CLEAN = [(16000, 1, 2048, 24000, 1, 5, 0, 0, 0, 1000, 0, 11, 16000, 1), (16000, 1, 2048, 24000, 1, 5, 1, 20, 0, 1000, 0, 12, 16000, 1),
          (8000, 1, 2048, 12000, 1, 3, 0, 0, 0, 1000, 0, 12, 8000, 1), (48000, 1, 2048, 32000, 1, 5, 1, 20, 0, 1001, 1105, 11, 48000, 1),
          (48000, 2, 2048, 40000, 1, 5, 0, 0, 0, 1001, 1104, 12, 48000, 2), (24000, 1, 2048, 20000, 0, 4, 1, 10, 0, 1000, 1103, 11, 24000, 1),
-         (48000, 1, 2048, 28000, 1, 8, 0, 0, 0, 0, 0, 12, 48000, 1), (12000, 1, 2048, 16000, 1, 6, 0, 0, 0, 1000, 0, 11, 12000, 2)]
+         (48000, 1, 2048, 28000, 1, 8, 0, 0, 0, 0, 0, 12, 48000, 1), (12000, 1, 2048, 16000, 1, 6, 0, 0, 0, 1000, 0, 11, 12000, 2),
+         # unvoiced talk spurts (family 14)
+         (16000, 1, 2048, 24000, 1, 5, 0, 0, 0, 1000, 0, 14, 16000, 1), (48000, 1, 2048, 32000, 1, 5, 0, 0, 0, 1001, 1105, 14, 48000, 1),
+         (24000, 1, 2048, 20000, 1, 8, 1, 15, 0, 1000, 1103, 14, 24000, 1), (48000, 2, 2048, 48000, 0, 6, 0, 0, 0, 1001, 1104, 14, 48000, 2),
+         (8000, 1, 2048, 16000, 1, 3, 0, 0, 0, 1000, 0, 14, 8000, 1), (16000, 2, 2048, 36000, 1, 10, 1, 20, 0, 1000, 0, 14, 16000, 2)]
 # strong in-band FEC (the sub-domain of the accuracy clause): speech-only wideband mono, FEC on, loss >= 20 %, >= 32 kb/s
 STRONG = [(16000, 1, 2048, 32000, 1, 5, 1, 20, 0, 1000, 0, 1, 16000, 1), (16000, 1, 2048, 40000, 1, 10, 1, 30, 0, 1000, 0, 11, 16000, 1),
           (16000, 1, 2048, 64000, 1, 5, 1, 20, 0, 1000, 0, 12, 16000, 1), (16000, 1, 2048, 48000, 0, 7, 1, 25, 0, 1000, 0, 11, 16000, 1),
@@ -133,7 +137,7 @@ def build_scripts(ctx, sched, bursts, tier):
     for b in bursts:
         if b[0] in ("PW", "PSa") and b[1] >= 4 and b[2] * b[1] in ((600,) if tier == "quick" else (600, 1200, 4000)):
             for ci in range(len(CLEAN)):
-                if tier == "thorough" or (ci + b[1] // 4) % 2 == 0:
+                if tier == "thorough" or (ci + b[1] // 4) % 2 == 0 or (CLEAN[ci][11] == 14 and ci % 2 == 0):
                     blist.append((b, CLEAN[ci]))
     for j, ((pol, U, Lb, pre, grp, reps, suf), forced) in enumerate(blist):
         if tier == "quick" and Lb * U > 420 and forced is None:
